@@ -940,9 +940,12 @@ impl Session {
             );
             let mut writer = self.writer.lock().await;
             if let Err(e) = writer.write_all(&buffer).await {
+                // release the writer first: close() locks it again to shut the transport down
+                drop(writer);
                 return Err(self.handle_io_error("write_without_padding", e).await);
             }
             if let Err(e) = writer.flush().await {
+                drop(writer);
                 return Err(self.handle_io_error("flush_without_padding", e).await);
             }
             tracing::info!(
@@ -968,9 +971,11 @@ impl Session {
             // For now, just write directly
             let mut writer = self.writer.lock().await;
             if let Err(e) = writer.write_all(&buffer).await {
+                drop(writer);
                 return Err(self.handle_io_error("write_no_padding_stop", e).await);
             }
             if let Err(e) = writer.flush().await {
+                drop(writer);
                 return Err(self.handle_io_error("flush_no_padding_stop", e).await);
             }
             return Ok(());
@@ -983,9 +988,11 @@ impl Session {
         if pkt_sizes.is_empty() {
             let mut writer = self.writer.lock().await;
             if let Err(e) = writer.write_all(&buffer).await {
+                drop(writer);
                 return Err(self.handle_io_error("write_no_padding_sizes", e).await);
             }
             if let Err(e) = writer.flush().await {
+                drop(writer);
                 return Err(self.handle_io_error("flush_no_padding_sizes", e).await);
             }
             return Ok(());
@@ -1029,6 +1036,7 @@ impl Session {
                     );
                 }
                 if let Err(e) = writer.write_all(&buffer[..size]).await {
+                    drop(writer);
                     return Err(self.handle_io_error("write_padding_split_payload", e).await);
                 }
                 buffer = buffer.split_off(size);
@@ -1050,6 +1058,7 @@ impl Session {
                 }
 
                 if let Err(e) = writer.write_all(&buffer).await {
+                    drop(writer);
                     return Err(self.handle_io_error("write_padding_payload_frame", e).await);
                 }
                 buffer.clear();
@@ -1062,6 +1071,7 @@ impl Session {
                 padding_frame.put_slice(&vec![0u8; size]); // padding data (zeros)
 
                 if let Err(e) = writer.write_all(&padding_frame).await {
+                    drop(writer);
                     return Err(self.handle_io_error("write_padding_frame_only", e).await);
                 }
             }
@@ -1074,12 +1084,14 @@ impl Session {
                 buffer.len()
             );
             if let Err(e) = writer.write_all(&buffer).await {
+                drop(writer);
                 return Err(self.handle_io_error("write_remaining_payload", e).await);
             }
         }
 
         tracing::trace!("[Session] write_with_padding: Flushing writer");
         if let Err(e) = writer.flush().await {
+            drop(writer);
             return Err(self.handle_io_error("flush_with_padding", e).await);
         }
         tracing::debug!("[Session] write_with_padding: Successfully wrote and flushed data");
